@@ -67,6 +67,16 @@ theorem C09_oracle_accepts_model (c : Case) (hc : c.client = true) : holdsC09 c 
   rw [f.disc] at hd
   simp at hd; subst hd; simp
 
+/-- **The resumption request carries the stanza count**: after any history on a stream-managed session the
+request that follows presents the session's id and `start + number of stanzas received`, nothing else. -/
+theorem C09_resume_request (c : Case) : holdsResume c (modelResume c) = true := by
+  unfold holdsResume modelResume
+  have f := client_facts c.ins ⟨c.smId, c.n0⟩
+  simp only [f.smId, f.inbound]
+  by_cases h : (c.smId == "") = true
+  · simp [h]
+  · simp [h]
+
 -- non-vacuity: the design's witness for F-09 (an <a/> before the <r/> must not be counted)
 example : answers (clientRecv ⟨"sm", 0⟩ [.pkt (.a 0) false, .pkt .r false, .pkt (.msg "1") false,
     .pkt (.nonza "features") false, .pkt .r false]).2 = [0, 1] := by decide
@@ -80,3 +90,4 @@ end XmppVerif.Props.C09
 #print axioms XmppVerif.Props.C09.C09_nonstanza_never_counted
 #print axioms XmppVerif.Props.C09.C09_stanza_counted_once
 #print axioms XmppVerif.Props.C09.C09_oracle_accepts_model
+#print axioms XmppVerif.Props.C09.C09_resume_request
